@@ -30,6 +30,7 @@ func runC01(c *Ctx) {
 	c.ruleCacheIdentity("R01d' cache-stores-what-it-returns")
 	c.ruleR01e("R01e result-built-from-current-path")
 	c.ruleR01f("R01f documented-length-rules")
+	c.ruleR01g("R01g optional-keeps-the-empty-match")
 }
 
 func isUnionCall(call *ssa.Call) bool {
